@@ -196,12 +196,12 @@ def run(ctx):
     if "if ',' in line: delim = ','" not in rtxt.replace('\n', ' ') and "delim = ','" not in rtxt or "split(line)[-1] != '1001'" not in rtxt:
         ctx.undec('R-SNIFFAGREE', 'reader grammar', wsn, 'the reader no longer decides by split(line)[-1] with a comma-or-blank delimiter; samples not valid')
     else:
-        accept = ['36, 1001\n', '36,1001\n', '36 1001\n', '36\t1001\n', '36 , 1001 \n', '36, 1001\r\n', '104,1001\n', '  36, 1001\n']
+        accept = ['104, 1001\n', '1234, 1001\n', '36, 1001\n', '36,1001\n', '36 1001\n', '36\t1001\n', '36 , 1001 \n', '36, 1001\r\n', '104,1001\n', '  36, 1001\n']
         reject = ['36, 2110\n', '36 2310\n', 'hello world\n', '\n', '1001, 36\n']
         hook = lambda n, L=None: None
         res = {}
         for L in accept + reject:
-            res[L] = consteval.run_block(sn.body, {}, (lambda L: (lambda n: L if isinstance(n, ast.Call) and isinstance(n.func, ast.Attribute) and n.func.attr == 'readline' else None))(L))
+            res[L] = consteval.run_block(sn.body, {}, (lambda L: (lambda n: (L if not n.args else (L[:n.args[0].value] if isinstance(n.args[0], ast.Constant) and isinstance(n.args[0].value, int) and n.args[0].value >= 0 else L)) if isinstance(n, ast.Call) and isinstance(n.func, ast.Attribute) and n.func.attr == 'readline' else None))(L))
         if any(v is consteval.UNK for v in res.values()):
             # an exception inside the try (e.g. [-1] of an empty split) returns False in the sniffer; the evaluator yields UNK there
             unk = [L for L, v in res.items() if v is consteval.UNK]
@@ -274,7 +274,7 @@ def run(ctx):
     anchored = set(['_getreader.py', 'core/_files.py', 'register.py'])
     for m in src.all_modules():
         if ctx.tier == 'quick' and m.relpath not in anchored and not m.relpath.endswith('Memmap.py') \
-                and 'ioapi' not in m.relpath and 'ffi1001' not in m.relpath and 'bpch' not in m.relpath:
+                and 'ioapi' not in m.relpath and 'ffi1001' not in m.relpath and 'bpch' not in m.relpath and not m.relpath.startswith('noaafiles/'):
             continue
         for q, fn in m.functions.items():
             if not q.endswith('.isMine') or '<locals>' in q:
@@ -317,6 +317,24 @@ def run(ctx):
                         v = getattr(a, 'value', a)
                         if isinstance(v, ast.GeneratorExp) or (isinstance(v, ast.Call) and dotted(v.func) in ('map', 'filter', 'zip', 'iter', 'reversed', 'enumerate', 'open')):
                             bad.append((api_stmt(n), 'reads module-level %s, which is a one-shot iterator (%s): the first probe consumes it' % (n.id, norm(v)[:50])))
+            # vacuous acceptance: `for a, b in zip(expected, found): if a != b: return False  else: return True` accepts when `found` is empty
+            for lp in [x for x in ast.walk(fn) if isinstance(x, ast.For) and isinstance(x.iter, ast.Call) and dotted(x.iter.func) == 'zip']:
+                rets_f = [x for x in ast.walk(lp) if isinstance(x, ast.Return) and isinstance(x.value, ast.Constant) and x.value.value is False and x not in [y for o in lp.orelse for y in ast.walk(o)]]
+                acc = [x for o in lp.orelse for x in ast.walk(o) if isinstance(x, ast.Return) and isinstance(x.value, ast.Constant) and x.value.value is True]
+                if not rets_f or not acc:
+                    continue
+                var = [a for a in lp.iter.args if isinstance(a, ast.Name)]
+                fromfile = []
+                for a in var:
+                    defs = [s2 for s2 in iter_stmts(fn.body) if isinstance(s2, ast.Assign) and any(isinstance(t, ast.Name) and t.id == a.id for t in s2.targets)]
+                    if defs and any(isinstance(c, ast.Call) and isinstance(c.func, ast.Attribute) and c.func.attr in ('split', 'readline', 'readlines', 'strip') for c in ast.walk(defs[-1].value)):
+                        fromfile.append(a.id)
+                guarded = any(isinstance(x, ast.Call) and dotted(x.func) == 'len' and x.args and isinstance(x.args[0], ast.Name) and x.args[0].id in fromfile
+                              for st2 in iter_stmts(fn.body) if isinstance(st2, (ast.If, ast.Assert)) for x in ast.walk(st2.test))
+                if fromfile and not guarded:
+                    ctx.rule('R-VACUOUS', 'no sniffer accepts a file because there was nothing to compare (zero-iteration path of a matching loop)')
+                    ctx.violation(Finding('R-VACUOUS', m.relpath, q, lp, 'the matching loop over zip(.., %s) returns False on a mismatch and True otherwise; when %s is empty (the line is blank or the file is shorter) '
+                                          'the loop body never runs and the file is accepted: this reader claims every short text file ahead of its real reader' % (fromfile[0], fromfile[0])))
             if bad:
                 for st, why in bad:
                     ctx.violation(Finding('R-ISMINEPURE', m.relpath, q, st,
